@@ -65,6 +65,8 @@ Section decl2.
     | MuxRemove u _ | MuxClearGroup u _ | MuxClearAll u => is_Some (xshape s !! u)
     | EnumClone e => is_Some (enums (base (l3 s)) !! e)
     | EvalClone v => is_Some (evals (base (l3 s)) !! v)
+    | MsgResize m _ _ => is_Some (msgs (base (l3 s)) !! m)
+    | BusSetType b _ => is_Some (buses (base (l3 s)) !! b)
     end.
 
   Definition viol2 (o : op2) (cw : cause * wrap) : Prop :=
@@ -102,6 +104,16 @@ Section decl2.
     | MuxClearGroup u g =>
         ∃ count gs, xshape s !! u = Some (count, gs) ∧
           ((g < 0 ∧ cw = (Negative, WGroupID)) ∨ (count ≤ g ∧ cw = (OutOfBounds, WGroupID)))
+    | MsgResize m n fits =>
+        (* the new size is negative; or it differs from the current one and: its size in bits is not
+           representable, or the bus the sender is attached to does not take it (its REAL type: CAN 2.0A
+           takes 8 bytes, any other type nothing), or the payload does not fit (geometry: oracle) *)
+        (n < 0 ∧ cw = (Negative, WMessageSize)) ∨
+        (∃ M, msgs (base (l3 s)) !! m = Some M ∧ m_size M ≠ n ∧
+           ((2 ^ 60 - 1 < n ∧ cw = (TooBig, WMessageSize)) ∨
+            ((∃ i Ii b B, m_sender M = Some i ∧ ifaces (base (l3 s)) !! i = Some Ii ∧ i_parent Ii = Some b ∧
+                          buses (base (l3 s)) !! b = Some B ∧ too_big B n = true) ∧ cw = (TooBig, WMessageSize)) ∨
+            (fits = false ∧ cw = (TooSmall, WMessageSize))))
     | _ => False
     end%Z.
 
